@@ -10,9 +10,21 @@ from .w import fail_edge_check, result_test, ret_nonzero, _eval, _facts
 # S3
 
 
-def _bang_test(c):
+def _bang_test(c, func=None):
     """Is the (peeled) condition a test for a flag character in `cmd`?  -> (char, truth
-    of the condition that means `flag present`) or None."""
+    of the condition that means `flag present`) or None.  A local that was assigned such a
+    test once (`int force = strchr(cmd, '!') != NULL;`) counts as the test."""
+    if func is not None and c["k"] == "ref" and c.get("cat") == "local":
+        from ..util import resolve_local
+        r = resolve_local(func, c)
+        if r is not c:
+            r2, t2 = negate_truth(r, True)
+            bt = _bang_test(r2)
+            if bt:
+                return (bt[0], bt[1] == t2)
+            if r2["k"] == "un" and r2["op"] == "!" :
+                pass
+        return None
     if is_call(c, "strchr") and cval(c["args"][1]) is not None:
         return (chr(cval(c["args"][1])), True)
     if c["k"] == "bin" and c["op"] in ("==", "!=") and is_call(strip_casts(c["l"]), "strchr"):
@@ -43,7 +55,7 @@ def _guard_edges(f, accept_bang=True, accept_xwa=True, accept_noxb=False, idx0=T
         if is_call(c, "bufs_modified"):
             if not idx0 or cval(c["args"][0]) == 0:
                 out.add(edge(False))
-        bt = _bang_test(c)
+        bt = _bang_test(c, f)
         if bt and accept_bang and bt[0] == "!":
             out.add(edge(bt[1]))
         if accept_xwa and c["k"] == "ref" and c["name"] == "xwa":
@@ -129,7 +141,7 @@ def rule_S3(ctx):
         alloc = False
         checked = False
         for cc, tt in facts:
-            bt = _bang_test(cc)
+            bt = _bang_test(cc, eq)
             if bt and (tt == bt[1]):
                 flags.add(bt[0])
             nn = nullness(cc, tt)
@@ -149,7 +161,7 @@ def rule_S3(ctx):
     # the test is control-dependent only on allocation and the two flags
     for c2 in eq.calls("bufs_modified"):
         for cc, tt in _facts(eq, c2):
-            bt = _bang_test(cc)
+            bt = _bang_test(cc, eq)
             nn = nullness(cc, tt)
             okc = (bt and bt[0] in ("a", "!")) or (nn is not None and nn[0]["k"] == "member" and nn[0]["field"] == "lb") \
                 or (cc["id"] == c["id"]) or key(cc) == key(c)
@@ -753,6 +765,8 @@ def rule_X2(ctx):
                     c = f.nodes[it[1]]
                     facts_by_id[c["id"]] = it[2]
                     hyps += cmp_constraints(c, it[2], subst)
+                    from ..bounds import helper_constraints
+                    hyps += helper_constraints(f, c, it[2], subst)
                 else:
                     n = f.nodes.get(it[1])
                     if n is None:
@@ -802,6 +816,10 @@ def rule_X2(ctx):
                         subst[nm] = lval
                         # drop hyps that mention the old atom
                         hyps = [h for h in hyps if nm not in (h[1].c if isinstance(h, tuple) else h.c)]
+            if cval(r.get("e")) is None and r.get("e") is not None:
+                # a computed status: the obligation is about the case in which it is 0
+                from ..bounds import helper_constraints
+                hyps += cmp_constraints(r["e"], False, subst) + helper_constraints(f, r["e"], False, subst)
             B = subst.get("(*%s)" % begp) or Lin({"(*%s)" % begp: 1})
             E = subst.get("(*%s)" % endp) or Lin({"(*%s)" % endp: 1})
             L = Lin({LEN: 1})
